@@ -102,6 +102,18 @@ Theorem C14_int_from_str_refuted_before_repair :
 Proof. exact int_from_str_legacy_refuted. Qed.
 Print Assumptions C14_int_from_str_refuted_before_repair.
 
+(* a metadata integer converted to JSON (decode_metadatum_to_json_*, all schemas): the number literal written denotes the
+   integer exactly; values that do not fit the u64 / i64 the JSON number is made from are an explicit error *)
+Theorem C14_metadata_int_json_exact : forall (z : Z) (t : text),
+  meta_int_to_json z = Ok t -> parse_i128 t = Ok z.
+Proof. exact meta_int_to_json_exact. Qed.
+Print Assumptions C14_metadata_int_json_exact.
+
+Example C14_metadata_int_json_example :
+  meta_int_to_json (- two63)%Z = Ok (print_Z (- two63)%Z) /\ meta_int_to_json (- two63 - 1)%Z = Err /\
+  meta_int_to_json int_max = Ok (print_Z int_max).
+Proof. repeat split; vm_compute; reflexivity. Qed.
+
 (* as_positive / as_negative / as_i32 are exact -- outside the known class "the Int is -2^64" *)
 Theorem C14_int_accessors_exact : forall z : Z, int_in_range z = true -> z <> int_min ->
   int_as_positive z = (if (0 <=? z)%Z then Some (Z.to_N z) else None) /\
